@@ -18,6 +18,8 @@ func Harness_C13_account_requests() {
 	verifInstallStoreObj(&verifAuthOutcome{uid: 5, level: auth.LevelAuth})
 	globals.authValidators = nil
 	globals.validators = nil
+	emailV := &verifValidator{}
+	verifValidators = map[string]*verifValidator{"email": emailV}
 	s := verifNewDispatchSession("sid-1")
 	s.ver = minSupportedVersionValue
 	switch verifChoose("authState", 3) {
@@ -41,7 +43,7 @@ func Harness_C13_account_requests() {
 		case 0:
 			acc.Scheme, acc.Secret = []string{"basic", "zzz", "token"}[verifChoose("scheme", 3)], []byte("alice:pwd")
 		case 1:
-			acc.Cred = []MsgCredClient{{Method: []string{"email", "junk", ""}[verifChoose("method", 3)], Value: "a@b.c"}}
+			acc.Cred = []MsgCredClient{{Method: []string{"email", "junk", ""}[verifChoose("method", 3)], Value: []string{"a@b.c", "bad", "dup"}[verifChoose("credValue", 3)]}}
 		case 2:
 			acc.State = []string{"ok", "suspended", "deleted", "junk"}[verifChoose("state", 4)]
 		case 3:
@@ -72,14 +74,19 @@ func Harness_C13_account_requests() {
 		return
 	}
 	verifHubDrain(globals.hub)
-	n := 0
+	n, lastCode := 0, 0
 	for _, r := range verifDrainSend(s) {
 		if r != nil && r.Ctrl != nil {
+			lastCode = r.Ctrl.Code
 			verifAssert(r.Ctrl.Id == "r1" || r.Ctrl.Id == "", "reply-echoes-request-id")
 			n++
 		}
 	}
 	verifAssert(n >= 1, "account-request-answered")
+	if msg.Acc != nil && emailV.requests > 0 && len(msg.Acc.Cred) == 1 && (msg.Acc.Cred[0].Value == "bad" || msg.Acc.Cred[0].Value == "dup") {
+		// the validator refused the credential: the client is told so
+		verifAssert(lastCode >= 400, "refused-credential-update-answered-with-an-error")
+	}
 	verifAssert(s.authLvl == lvl0 && (s.uid == uid0 || msg.Del != nil && msg.Del.What == "user"), "account-requests-never-raise-the-sessions-authentication")
 	if uid0 == 0 {
 		verifAssert(len(verifStore.calls) == 0 && len(verifStore.users) == nUsers, "unauthenticated-session-changes-no-account")
